@@ -298,7 +298,9 @@ def main(argv=None):
             "traces_validated_against_impl": agg["traces_validated"],
             "scenario_shapes": dict(agg["shapes"].most_common(12)),
             "n_scenario_shapes": len(agg["shapes"]),
-            "extra": dict(agg["extra"]),
+            "extra": {k: v for k, v in agg["extra"].items() if not k.startswith("kind:")},
+            "transition_kinds": dict(sorted(((k[5:], v) for k, v in agg["extra"].items() if k.startswith("kind:")), key=lambda kv: -kv[1])[:150]),
+            "n_transition_kinds": sum(1 for k in agg["extra"] if k.startswith("kind:")),
             "samples": agg["samples"][:4],
             "correspondence_failures": len(agg["corr_fail"]),
             "monitor_failures": len(agg["mon_fail"]),
